@@ -33,6 +33,9 @@ type CaseC13 struct {
 	Others  int       `json:"others"`
 	Steps   []StepC13 `json:"steps"`
 	Pending bool      `json:"pending"` // a replication is in progress (fetches parked) while saving
+	// MidWrite: a goroutine keeps writing small local entries while the snapshot is being saved (the log grows
+	// under SaveSnapshot); the saved database is then any state between the one before and the one after
+	MidWrite bool `json:"mid_write,omitempty"`
 }
 
 func genSizeC13(rt *rapid.T) int {
@@ -79,6 +82,7 @@ func genC13(rt *rapid.T) CaseC13 {
 	if c.Others > 0 {
 		c.Pending = rapid.Bool().Draw(rt, "pending")
 	}
+	c.MidWrite = rapid.IntRange(0, 2).Draw(rt, "midWrite") == 0
 	return c
 }
 
@@ -243,6 +247,49 @@ func execC13(c CaseC13) (out *Outcome) {
 	}
 	queued := world.Stats(s0).Queued + world.Stats(s0).Fetching + world.Stats(s0).Added
 
+	// the concurrent writer (its entries are small: the log stays saveable)
+	stopWriter := make(chan struct{})
+	writerDone := make(chan error, 1)
+	midWrites := 0
+	if c.MidWrite {
+		for i := 0; i < 20; i++ { // a log long enough for the save to take a while
+			before := hashSetOf(s0)
+			op, err := writeAny(ctx, s0, c.Type, i%4, 8, cnt)
+			cnt++
+			if err != nil {
+				return fail("harness: write: %v", err)
+			}
+			if err := tr.noteWrites(s0, 0, before, []model.Op{op}); err != nil {
+				return fail("harness: %v", err)
+			}
+		}
+		savedSet = world.HashSet(s0)
+		go func() {
+			for i := 0; i < 400; i++ {
+				select {
+				case <-stopWriter:
+					writerDone <- nil
+					return
+				default:
+				}
+				before := hashSetOf(s0)
+				op, err := writeAny(ctx, s0, c.Type, i%4, 8, 100000+i)
+				if err != nil {
+					writerDone <- fmt.Errorf("a write during SaveSnapshot failed: %v", err)
+					return
+				}
+				if err := tr.noteWrites(s0, 0, before, []model.Op{op}); err != nil {
+					writerDone <- err
+					return
+				}
+				midWrites++
+			}
+			writerDone <- nil
+		}()
+		time.Sleep(200 * time.Microsecond)
+	} else {
+		writerDone <- nil
+	}
 	var snap cid.Cid
 	var saveErr error
 	func() {
@@ -253,9 +300,21 @@ func execC13(c CaseC13) (out *Outcome) {
 		}()
 		snap, saveErr = basestore.SaveSnapshot(ctx, s0)
 	}()
+	close(stopWriter)
+	if werr := <-writerDone; werr != nil && out == nil {
+		p0.SetGate(false)
+		return fail("%v", werr)
+	}
+	afterSet := map[string]bool{}
+	for _, h := range world.HashSet(s0) {
+		afterSet[h] = true
+	}
 	p0.SetGate(false)
 	if out != nil {
 		return out
+	}
+	if c.MidWrite {
+		o.Labels = append(o.Labels, "log-grew-during-save")
 	}
 	o.NonTrivial = replicated || big || pendingStarted
 	if replicated {
@@ -325,6 +384,29 @@ func execC13(c CaseC13) (out *Outcome) {
 		if !have[h] {
 			return fail("entry %s was in the log when the snapshot was saved but is missing after LoadFromSnapshot (%d saved, %d loaded)", short(h), len(savedSet), len(gotSet))
 		}
+	}
+	if c.MidWrite {
+		// any state between the one before the save and the one after it, and a consistent one
+		for _, h := range gotSet {
+			if !afterSet[h] && !pendingStarted {
+				return fail("LoadFromSnapshot produced entry %s which was never in the saved database", short(h))
+			}
+		}
+		if _, err := tr.checkOrder(s1); err != nil {
+			return fail("after LoadFromSnapshot of a snapshot saved while the log grew: %v", err)
+		}
+		got, err := viewOf(s1, c.Type)
+		if err != nil {
+			return fail("view after load: %v", err)
+		}
+		want, err := replayOfLog(s1, c.Type)
+		if err != nil {
+			return fail("harness: %v", err)
+		}
+		if !eqStrings(got, want) {
+			return fail("after LoadFromSnapshot (snapshot saved while the log grew) the view %v is not the replay of the %d loaded entries %v", got, len(gotSet), want)
+		}
+		return o
 	}
 	if !pendingStarted || len(gotSet) == len(savedSet) {
 		if len(gotSet) != len(savedSet) {
